@@ -35,6 +35,8 @@ GBad(u) == [g |-> "unsupported", u |-> u]
 GNamed(u) == [g |-> "named", u |-> u]                  \* a value of a named basic type (type ID uint32, type Status int, type Label string, ...)
 GSameName == [g |-> "samename"]                         \* []any{row{Title}, row{Name, Count}}: two struct types that are both called "row"
 GEmb(u) == [g |-> "embedded", u |-> u]                \* type Page struct { Base; Name string } - u: how Base is embedded (value, ptr, ptrnil, unexported)
+GKeyed(u) == [g |-> "keyed", u |-> u]                \* maps whose key type is not plain string: type K string, any holding strings
+GShared(u) == [g |-> "shared", u |-> u]              \* one pointer at two positions of a value that sits behind another pointer
 GNilSlice == [g |-> "nilslice"]                          \* var s []string: a slice (of length 0), not a nil value
 GNilMap == [g |-> "nilmap"]                              \* var m map[string]int
 Fld(n, x, v) == [n |-> n, x |-> x, v |-> v]
@@ -76,6 +78,12 @@ Conv(v) ==
     [] v.g = "embedded" -> IF v.u = "ptrnil" THEN Unspec
                            ELSE IF v.u = "unexported" THEN O(<<[pk |-> "Name", pv |-> S("n")]>>)
                            ELSE O(<<[pk |-> "Base", pv |-> O(<<[pk |-> "Title", pv |-> S("t")]>>)], [pk |-> "Name", pv |-> S("n")]>>)
+    [] v.g = "keyed" -> Unspec             \* a defined result or an error, never a crash (C09)
+    \* the same pointer reached twice shows the same content twice (C12: same shape)
+    [] v.g = "shared" -> (CASE v.u = "struct" -> O(<<[pk |-> "A", pv |-> O(<<[pk |-> "Name", pv |-> S("c")]>>)], [pk |-> "B", pv |-> O(<<[pk |-> "Name", pv |-> S("c")]>>)]>>)
+                            [] v.u = "slice" -> A(<<[t |-> "int", sym |-> "5"], [t |-> "int", sym |-> "5"], [t |-> "int", sym |-> "5"]>>)
+                            [] v.u = "map" -> O(<<[pk |-> "a", pv |-> O(<<[pk |-> "Name", pv |-> S("c")]>>)], [pk |-> "b", pv |-> O(<<[pk |-> "Name", pv |-> S("c")]>>)]>>)
+                            [] v.u = "nested" -> O(<<[pk |-> "Inner", pv |-> A(<<O(<<[pk |-> "Name", pv |-> S("c")]>>), O(<<[pk |-> "Name", pv |-> S("c")]>>)>>)], [pk |-> "Name", pv |-> S("n")]>>))
     [] v.g = "nilslice" -> A(<<>>)
     [] v.g = "nilmap" -> O(<<>>)
     [] v.g = "unsupported" -> Err("unsupported")
@@ -91,7 +99,7 @@ PrintableD(v) == CASE v.t \in {"err", "unspec", "nilptr"} -> FALSE
 
 \* ---- access paths: every way to reach every node of the converted value ----
 LowerFirst(n) == CASE n = "Title" -> "title" [] n = "Count" -> "count" [] n = "Name" -> "name" [] n = "Age" -> "age" [] n = "Inner" -> "inner" [] n = "Tags" -> "tags"
-                   [] n = "Base" -> "base" [] n = "Val" -> "val" [] n = "K" -> "k" [] n = "P" -> "p" [] n = "Q" -> "q" [] OTHER -> n
+                   [] n = "Base" -> "base" [] n = "A" -> "a" [] n = "B" -> "b" [] n = "Val" -> "val" [] n = "K" -> "k" [] n = "P" -> "p" [] n = "Q" -> "q" [] OTHER -> n
 RECURSIVE Paths(_, _)
 Paths(v, depth) ==     \* set of [p |-> path source suffix, v |-> value reached]
   {[p |-> "", v |-> v]} \cup
@@ -135,7 +143,7 @@ CaseKeys == {GMap(<<KV("name", GInt("int", "five")), KV("Name", GStr("upper"))>>
              GMap(<<KV("k", GMap(<<KV("q", GBool(TRUE)), KV("Q", GBool(FALSE))>>))>>),
              GStruct(<<Fld("Inner", TRUE, GMap(<<KV("val", GStr("lo")), KV("Val", GStr("hi"))>>))>>)}
 \* unsupported kinds at every depth
-Bads == {GBad(u) : u \in {"chan", "func", "complex", "array", "mapint", "uintptr", "mapintempty", "mapintnil", "chan-nil", "func-nil"}}
+Bads == {GBad(u) : u \in {"chan", "func", "complex", "array", "mapint", "uintptr", "mapintempty", "mapintnil", "chan-nil", "func-nil", "mapany", "mapanymixed"}}
 BadAt(b) == {GPtr(GStruct(<<Fld("Name", TRUE, GStr("n")), Fld("Val", TRUE, b)>>)), GSlice(<<GStruct(<<Fld("Val", TRUE, b)>>)>>),
              GMap(<<KV("k", GStruct(<<Fld("Val", TRUE, b), Fld("Name", TRUE, GStr("n"))>>))>>), GPtr(GPtr(GStruct(<<Fld("Val", TRUE, b)>>))),
              b, GPtr(b), GSlice(<<GInt("int", "five"), b>>), GMap(<<KV("k", b)>>), GStruct(<<Fld("Name", TRUE, GStr("n")), Fld("Val", TRUE, b)>>),
@@ -148,7 +156,9 @@ HiddenBad == {GStruct(<<Fld("Name", TRUE, GStr("n")), Fld("ch", FALSE, GBad("cha
 NamedVals == UNION {{GNamed(u), GPtr(GNamed(u)), GSlice(<<GNamed(u)>>), GMap(<<KV("k", GNamed(u))>>), GStruct(<<Fld("Val", TRUE, GNamed(u))>>)} :
                        u \in {"uint32", "int", "string", "float64", "bool", "uint8", "uintptr-named"}}
 Embedded == UNION {{GEmb(u), GPtr(GEmb(u)), GSlice(<<GEmb(u)>>), GMap(<<KV("k", GEmb(u))>>)} : u \in {"value", "ptr", "ptrnil", "unexported"}}
-NilColls == NamedVals \cup Embedded \cup {GSameName, GPtr(GSameName), GNilSlice, GNilMap, GPtr(GNilSlice), GSlice(<<GNilSlice, GNilMap>>), GMap(<<KV("k", GNilSlice), KV("m", GNilMap)>>),
+Shared == {GShared(u) : u \in {"struct", "slice", "map", "nested"}} \cup {GSlice(<<GShared("struct")>>)}
+Keyed == {GKeyed(u) : u \in {"namedstring", "anystrings"}} \cup {GPtr(GKeyed("namedstring")), GSlice(<<GKeyed("anystrings")>>)}
+NilColls == NamedVals \cup Embedded \cup Shared \cup Keyed \cup {GSameName, GPtr(GSameName), GNilSlice, GNilMap, GPtr(GNilSlice), GSlice(<<GNilSlice, GNilMap>>), GMap(<<KV("k", GNilSlice), KV("m", GNilMap)>>),
              GStruct(<<Fld("Tags", TRUE, GNilSlice), Fld("Inner", TRUE, GNilMap), Fld("Name", TRUE, GStr("n"))>>)}
 Values == CASE Family = "scalars" -> Scalars
             [] Family = "g1" -> G1 \cup NilPtrs \cup CaseKeys \cup NilColls \cup OddColls
